@@ -137,6 +137,8 @@ class World(object):
                 os.mkfifo(p, nd.get('m', 0o644))
             else:
                 raise ValueError('bad node type %r' % t)
+            if nd.get('o'):
+                os.lchown(p, nd['o'][0], nd['o'][1])
             mt = nd.get('mt')
             if mt is None:
                 mt = (BASE_MTIME + 1000 * n) * 10 ** 9 + 123456789
